@@ -594,7 +594,36 @@ def f9(prog, ctx):
     ctx.floor("F9", "exon / intron counter pairs", n, 2)
 
 
+def f10(prog, ctx):
+    """The exon and the intron counter are twins: whether a read is counted at all is decided by the same tests in both (the exon profile of
+    a single-block read is not empty: it includes an annotated exon the block coincides with)."""
+    LRC_ = "src/long_read_counter.py"
+    fe, fi = prog.try_func(LRC_, "ExonCounter.add_read_info"), prog.try_func(LRC_, "IntronCounter.add_read_info")
+    if fe is None or fi is None:
+        ctx.undecided("F10", prog.module(LRC_).tree, "ExonCounter / IntronCounter", "add_read_info of the two counters not found")
+        return
+
+    def exits(f):
+        out = []
+        for st in f.body:
+            if isinstance(st, ast.If) and not st.orelse and any(isinstance(x, ast.Return) for x in st.body):
+                out.append(re.sub(r"exon|intron", "<feature>", src(st.test)))
+        return sorted(out)
+    ee, ei = exits(fe), exits(fi)
+    if ee == ei:
+        ctx.ok("F10", "%s:%d" % (LRC_, fe.lineno), "ExonCounter / IntronCounter skip a read under the same tests: %s" % ee)
+    else:
+        extra = [t for t in ee if t not in ei] or [t for t in ei if t not in ee]
+        which = "ExonCounter" if [t for t in ee if t not in ei] else "IntronCounter"
+        ctx.fail("F10", fe if which == "ExonCounter" else fi, which + ".add_read_info", "extra skip: %s" % extra[0][:70],
+                 "%s leaves out reads under a test its twin does not have (%s): for those reads one of the two tables loses inclusions that "
+                 "the profile does contain" % (which, extra[0][:80]))
+    ctx.floor("F10", "twin counters compared", 1, 1)
+
+
 def run(prog, ctx):
+    ctx.rule("F10", "ExonCounter.add_read_info and IntronCounter.add_read_info return early under the same tests (exon <-> intron)")
+    f10(prog, ctx)
     ctx.rule("F5", "ProfileFeatureCounter.is_valid refers to the profile vectors only through `is (not) None` and hasattr - never "
                    "through truthiness or length (an empty profile is valid)")
     f5(prog, ctx)
